@@ -264,6 +264,9 @@ pub fn c08_variants(tier: &str, words: &[u32]) -> Vec<Variant> {
         s.mons.c08 = true;
         s.mons.c08_twin = true;
         s.alpha = base_alpha();
+        // taking over the ADDRESS of a (possibly still listed) peer: the
+        // notification mirror must keep matching the getters even then
+        s.alpha.api.push(Ev::ChangeId(id(B, 7).with(pol)));
         s.seed_hists = formed_seeds(&s, &["two-peers", "mid-probe", "suspected", "suspected-single", "defunct", "renamed", "peer-down"]);
         let l = if th { lim(5, 4, 8_000_000, 900.0) } else { lim(3, 3, 2_000_000, 40.0) };
         out.push(Variant { spec: s, lim: l });
@@ -297,6 +300,7 @@ pub fn c09_variants(tier: &str, words: &[u32]) -> Vec<Variant> {
             (id(B, 1), 0, true),
             // a superseded sender whose datagrams carry update sections
             (id(B, 0), 0, true),
+            (id(B, 0), 1, false),
             (id(B, 2), 0, false),
             (id(C, 0), 0, true),
             (id(A, 0), 0, false),
@@ -312,6 +316,22 @@ pub fn c09_variants(tier: &str, words: &[u32]) -> Vec<Variant> {
         // B known at generation 1, then B.0 (superseded) talks
         let mut sb = SeedBuilder::new(&s);
         sb.ev(Ev::Apply(vec![al(id(B, 1)), al(id(C, 0))], true));
+        s.seed_hists.push(sb.done());
+        // B.1 suspected (its timeout outstanding), then declared Down and
+        // forgotten: an older identity of that address may re-register while
+        // the timeout for the newer one is still pending
+        let mut sb = SeedBuilder::new(&s);
+        sb.ev(Ev::Apply(vec![al(id(B, 1)), al(id(C, 0))], true));
+        for _ in 0..3 {
+            if sb.view().members.iter().any(|m| m.state() == State::Suspect && m.id().addr == B) {
+                break;
+            }
+            sb.fire(|t| matches!(t, TimerKey::ProbeRandomMember(_)));
+            sb.fire(|t| matches!(t, TimerKey::SendIndirectProbe { .. }));
+        }
+        sb.fire(|t| matches!(t, TimerKey::ProbeRandomMember(_)));
+        sb.ev(Ev::Apply(vec![mm(id(B, 1), 0, State::Down)], true));
+        sb.fire(|t| matches!(t, TimerKey::RemoveDown(i) if i.addr == B));
         s.seed_hists.push(sb.done());
         let l = if th { lim(5, 4, 8_000_000, 900.0) } else { lim(3, 3, 2_000_000, 40.0) };
         out.push(Variant { spec: s, lim: l });
